@@ -71,7 +71,8 @@ def showRes (r : CallRes) (isCreate : Bool) : String :=
   | _ =>
     let st := match r.err with | none => "ok" | some e => faultName e
     st ++ " " ++ toString r.gas ++ " " ++ hexOrDash r.ret ++
-      (if isCreate then " " ++ hexAddr r.addr else "") ++ " " ++ toString r.g.used
+      (if isCreate then " " ++ hexAddr r.addr else "") ++ " " ++ toString r.g.used ++
+      " s=" ++ toString r.g.steps ++ " h=" ++ toString r.g.hwStack ++ " d=" ++ toString r.g.hwDepth
 
 def parseStack (s : String) : Option (List Word) :=
   if s == "-" then some [] else
@@ -89,7 +90,7 @@ def step (_ : Unit) (line : String) : Unit × String :=
         let input ← parseHexTok input
         let cx ← parseCtx cfg ctx
         let tp := parseTape tape
-        let r := topCall cx (fuelFor gas 0 tp) addr value input gas ⟨tp, 0, #[]⟩
+        let r := topCall cx (fuelFor gas 0 tp) addr value input gas (Global.start tp)
         pure (showRes r false)).getD "bad-op"
     | ["create", cfg, gas, value, init, ctx, tape] =>
       (do
@@ -99,7 +100,7 @@ def step (_ : Unit) (line : String) : Unit × String :=
         let init ← parseHexTok init
         let cx ← parseCtx cfg ctx
         let tp := parseTape tape
-        let r := topCreate cx (fuelFor gas init.size tp) value init gas ⟨tp, 0, #[]⟩
+        let r := topCreate cx (fuelFor gas init.size tp) value init gas (Global.start tp)
         pure (showRes r true)).getD "bad-op"
     | ["gas", cfg, op, memLen, last, cgas, stack] =>
       (do
@@ -124,7 +125,7 @@ def step (_ : Unit) (line : String) : Unit × String :=
           | none => pure "overflow"
           | some memorySize =>
             let m : Mem := ⟨Array.replicate memLen 0, last⟩
-            match dynGas ⟨bit cfg 3, bit cfg 4⟩ info.dyn st m memorySize cgas 0 ⟨[], 0, #[]⟩ with
+            match dynGas ⟨bit cfg 3, bit cfg 4⟩ info.dyn st m memorySize cgas 0 (Global.start []) with
             | .ok cost _ _ _ => pure ("ok " ++ toString cost ++ " " ++ toString memorySize)
             | .err _ => pure "err"
             | .desync _ => pure "unmodelled").getD "bad-op"
@@ -132,7 +133,10 @@ def step (_ : Unit) (line : String) : Unit × String :=
       (do
         let addr ← addr.toNat?
         let input ← parseHexTok input
-        pure (toString (precompileGas addr input))).getD "bad-op"
+        let gas := precompileGas addr input
+        -- the harness runs `Run` only when it is cheap; then it reports whether the length gate let it through
+        pure (toString gas ++ " " ++
+          (if gas > 3000000 then "skip" else if precompileLenOk addr input.size then "run" else "lenerr"))).getD "bad-op"
     | _ => "bad-op"
   ((), out)
 
